@@ -240,6 +240,25 @@ def run(chk, facts, tier, only=None):
                 inside = any(y is ctor[0] for y in walk(cond[0]["t"]))
                 okv = idx_vars == [ivar] and label_cmp and inside
                 detail = f"index built from {idx_vars} (enumerate counter is `{ivar}`), comparison `{ca} == {cb}`, construction inside the match branch: {inside}"
+        if not loops:
+            # the iterator idiom: `let Some((i, f)) = fs.iter().enumerate().find(|(_, f)| v.0.id == *f.id) else { Err }` (or position(..))
+            finds = [x for x in walk(arm["body"]) if x.get("k") == "mcall" and x["m"] in ("find", "position")
+                     and (x["m"] == "position" or any(y.get("k") == "mcall" and y["m"] == "enumerate" for y in walk(x["recv"])))]
+            ctor = [x for x in walk(arm["body"]) if x.get("k") == "call" and (callee(x) or "").endswith("value::VariantValue")]
+            if len(finds) == 1 and ctor:
+                fd = finds[0]
+                cl = fd["args"][0] if fd.get("args") else {}
+                eqs = [x for x in walk(cl) if x.get("k") == "bin" and x.get("op") == "Eq"] if cl.get("k") == "closure" else []
+                label_cmp = bool(eqs) and "id" in (expr_path(eqs[0]["a"]) or "").split(".") and "id" in (expr_path(eqs[0]["b"]) or "").split(".")
+                # the index variable: first component of the pattern the find result is bound to (or the position result itself)
+                ivar = None
+                for st in nodes(arm["body"], "slet"):
+                    if st.get("init") is not None and any(y is fd for y in walk(st["init"])):
+                        names = [y["n"] for y in walk(st["pat"]) if y.get("k") == "bind"]
+                        ivar = names[0] if names else None
+                idx_vars = [(y.get("res") or {}).get("path") for y in walk(ctor[0]["args"][1]) if y.get("k") == "path"]
+                okv = label_cmp and ivar is not None and idx_vars == [ivar]
+                detail = f"index built from {idx_vars} (bound from {fd['m']}(..) as `{ivar}`), label comparison in the predicate: {label_cmp}"
         chk.expect(okv, "variant-index:position-of-matching-field",
                    f"annotation must store, as the variant index, the position of the type's field whose label id equals the value's label "
                    f"(the index is what gets written on the wire): {detail}", ok_detail=detail)
